@@ -183,6 +183,9 @@ public:
 		if (this == &b)
 			return;
 		if (--_rc() == 0) {
+#ifdef ASL_VERIF
+			asl_verif_point(3, &_rc());
+#endif
 			clear();
 			asl_destroy((AtomicCount*)&a[1]);
 		}
@@ -193,6 +196,9 @@ public:
 	~HashMap()
 	{
 		if(--_rc() == 0) {
+#ifdef ASL_VERIF
+			asl_verif_point(3, &_rc());
+#endif
 			clear();
 			asl_destroy((AtomicCount*)&a[1]);
 		}
